@@ -5,6 +5,7 @@ import Driver.Uptime
 import Driver.Rs
 import Driver.Mqtt
 import Driver.CalCfg
+import Driver.KeepAlive
 
 def main (args : List String) : IO UInt32 := do
   match args with
@@ -15,4 +16,5 @@ def main (args : List String) : IO UInt32 := do
   | ["rs"] => Driver.RsDrv.main; return 0
   | ["mqtt"] => Driver.MqttDrv.main; return 0
   | ["calcfg"] => Driver.CalCfgDrv.main; return 0
+  | ["keepalive"] => Driver.KeepAliveDrv.main; return 0
   | _ => IO.eprintln "usage: svdrv <subsystem>"; return 2
